@@ -167,6 +167,28 @@ def mc_and_generate(ctx, inst, timeout=1500, workers=4):
     return res
 
 
+INPUT_FIELDS = {"create": ("p", "kind", "chunks", "attr", "oexcl"), "update": ("p", "kind", "chunks", "attr"),
+                "write": ("p", "chunks", "attr", "via"), "link": ("o", "n"), "delete": ("p", "rec", "data", "ign"),
+                "rename": ("o", "n"), "lookup": ("p",), "list": ("p",)}
+
+
+def finding_scripts(pid):
+    """The minimal executions of this property's findings (inputs only), so that every run demonstrates
+    each open finding on the real code (KNOWN-FINDING) and re-tests each fixed one."""
+    base = os.path.dirname(os.path.dirname(os.path.abspath(__file__)))
+    with open(os.path.join(base, "known_findings.d", pid + ".json")) as f:
+        fs = json.load(f)["findings"]
+    out = []
+    for fd in fs:
+        ops = []
+        for e in fd.get("minimal", []):
+            if e.get("ev") in INPUT_FIELDS:
+                ops.append(dict({"ev": e["ev"]}, **{k: e[k] for k in INPUT_FIELDS[e["ev"]]}))
+        if ops:
+            out.append(ops)
+    return out
+
+
 def write_script(path, hists):
     with open(path, "w") as f:
         for h in hists:
